@@ -132,6 +132,23 @@ Proof.
   - cbn [app reports_ops_from fold_left]. rewrite IH. destruct r; reflexivity.
 Qed.
 
+(* ---- OpenMP per-thread ICV *)
+Lemma omp_inits_snoc t ns n : omp_inits t (ns ++ [n]) = omp_init (omp_inits t ns) t n.
+Proof. unfold omp_inits. rewrite fold_left_app. reflexivity. Qed.
+Lemma omp_own_thread hw t ns :
+  omp_loop_team hw (omp_inits t ns) t = match last_positive ns with Some v => v | None => hw end.
+Proof.
+  induction ns as [|n ns IH] using rev_ind; [reflexivity|].
+  rewrite omp_inits_snoc, last_positive_snoc. unfold omp_init, omp_loop_team in *.
+  destruct (0 <? n); [simpl; rewrite N.eqb_refl; reflexivity | exact IH].
+Qed.
+Lemma omp_other_thread hw t u ns : u <> t -> omp_loop_team hw (omp_inits t ns) u = hw.
+Proof.
+  intro H. induction ns as [|n ns IH] using rev_ind; [reflexivity|].
+  rewrite omp_inits_snoc. unfold omp_init, omp_loop_team in *. destruct (0 <? n); [|exact IH].
+  simpl. replace (t =? u)%N with false by (symmetry; apply N.eqb_neq; congruence). exact IH.
+Qed.
+
 Section HW.
   Variable hw : Z.
   Hypothesis hw_pos : 0 < hw.
@@ -333,3 +350,16 @@ Section HW.
   Lemma reports_snoc b ns n : reports b hw (ns ++ [n]) = reports b hw ns ++ [report b hw (run b hw (ns ++ [n]))].
   Proof. apply reports_from_snoc. Qed.
 End HW.
+
+(* ---- OpenMP: bound for the initialising thread, witness for any other thread *)
+Lemma omp_bound_init hw t ns n : 0 < n ->
+  omp_loop_team hw (omp_inits t (ns ++ [n])) t = n /\
+  omp_loop_team hw (omp_inits t (ns ++ [n])) t = report OMP hw (run OMP hw (ns ++ [n])).
+Proof.
+  intro Hn. rewrite omp_own_thread, last_positive_snoc.
+  assert (E : (0 <? n) = true) by (apply Z.ltb_lt; lia). rewrite E. split; [reflexivity|].
+  symmetry. apply (after_init hw OMP ns n Hn).
+Qed.
+Lemma omp_other_unlimited :
+  exists hw t u n, u <> t /\ 0 < n /\ n < omp_loop_team hw (omp_inits t [n]) u /\ report OMP hw (run OMP hw [n]) = n.
+Proof. exists 16, 0%N, 1%N, 2. repeat split; try discriminate; try reflexivity. Qed.
